@@ -1,5 +1,5 @@
 (* C06: truncated input is reported as an error, never a crash. *)
-Require Import Bebop.wire.Wire Bebop.wire.WireFacts Bebop.wire.ByteDec Bebop.wire.ByteDecFacts Bebop.props.WireExample.
+Require Import Bebop.wire.Wire Bebop.wire.WireFacts Bebop.wire.ByteDec Bebop.wire.ByteDecFacts Bebop.wire.StreamDec Bebop.wire.FaultFacts Bebop.props.WireExample.
 
 (* the full property on the model: every strict prefix, both decoders, result Err (not Ok, not Panic, not Excess) *)
 Definition C06_byte_statement : Prop :=
@@ -9,9 +9,7 @@ Definition C06_byte_statement : Prop :=
       no_panic (dec3 s {| safe := true; lim := None |} fuel t (firstn k a)).
 
 (* UnmarshalBebop half: a strict prefix of an encoding never decodes successfully (prefix stability L7 + round trip) and
-   never panics (checked_decoder_never_panics).  The DecodeBebop half (the latch is set on every truncated stream:
-   truncation_latches, prototyped on the reduced model) and the allocation bound are decided by the exhaustive
-   cut-point enumeration of lib/c06.py against the executable model. *)
+   never panics (checked_decoder_never_panics). *)
 Theorem C06_byte : C06_byte_statement.
 Proof.
   intros s Hwf t v a E. destruct (C06_byte s {| safe := true; lim := None |} Hwf eq_refl v t a E) as [f0 H].
@@ -25,3 +23,31 @@ Proof.
 Qed.
 
 Print Assumptions C06_byte.
+
+(* DecodeBebop half: the reader delivers the first k < length a bytes of an encoding - in chunks of ANY sizes, under ANY
+   enclosing limits that lie beyond them - and then fails.  The decoder returns (it does not panic, does not ask for memory
+   out of proportion, does not run out of fuel) and the ErrorReader's latch is set: DecodeBebop's result is r.Err, an error.
+   Hypotheses: message indices are distinct and non-zero (schema_wf, what the parser guarantees), and a union that declares
+   a branch 0 leads to finitely nested records (union0_ok; vacuous for unions numbered from 1, as in every schema of the
+   repository).  The allocation bound of the property ("in proportion") is decided by lib/c06.py against the executable model. *)
+Definition C06_stream_statement : Prop := truncation_statement.
+Theorem C06_stream : C06_stream_statement.
+Proof. exact truncation_holds. Qed.
+
+Lemma ex_union0_ok : union0_ok ex_schema.
+Proof.
+  intros n brs j m. unfold ex_schema.
+  destruct n as [|p]; [discriminate|].
+  destruct p as [[[]|[]|]|[[]|[]|]|]; try discriminate.
+  intros [= <-]. cbn. discriminate.
+Qed.
+
+(* the hypotheses are met by the example schema, and the conclusion is seen on every one of its 78 cut points under a
+   ragged read schedule *)
+Example C06_stream_witness : forall k, k < 78 ->
+  match sdec ex_schema None 20 (TRef 4) (truncated ex_bytes k [3; 1; 2; 7; 1] []) with Ok (_, r') => err r' | _ => false end = true.
+Proof.
+  intros k Hk. do 78 (destruct k as [|k]; [vm_compute; reflexivity|]). lia.
+Qed.
+
+Print Assumptions C06_stream.
